@@ -11,7 +11,8 @@ integer-valued object, `notInt`), private helpers / properties of the class chai
   Arange   integer index vector (first : Lin, count : Lin, step : int)  from `np.arange`, `+ Lin`, `* int`
   Real     scalar real expression (Ts, Fd, literals, pi, tau = 2*pi, math.sqrt, 1.0 / L ...)
   Time     Arange * Real -- the time vector: (integer index) * (scalar), the ONLY accepted way of making times;
-           a float offset added to a time vector (`current_time + arange * Ts`) is refused
+           a float offset added to a time vector (`current_time + arange * Ts`) is refused; a further factor
+           makes it an Elem (part of the phase), which cannot be reshaped / returned as the time vector
   Elem     real expression per ray (phi_l, psi_l) and per time instant `t`
   Cis      np.exp(1j * Elem); RaySum = np.sum(Cis, axis=0) / Cis.sum(axis=0); Jakes = Real * RaySum
   Opaque   shapes / lengths that only feed `t.shape = ...` (never allowed into an index, a time or the formula)
@@ -326,10 +327,7 @@ class Exec:
                  '(integer sample index) * Ts', node)
         if isinstance(a, Time) or isinstance(b, Time):
             tm, o = (a, b) if isinstance(a, Time) else (b, a)
-            if isinstance(o, (Real, Lin)) and isinstance(op, ast.Mult):
-                return Time(tm.idx, Real('(%s * %s)' % (tm.scale.lean, self.real_of(o, node).lean),
-                                         syms=tm.scale.syms | self.real_of(o, node).syms))
-            if isinstance(o, (Real, Lin, Time)):
+            if isinstance(o, (Real, Lin, Time)) and not isinstance(op, (ast.Mult, ast.Div)):
                 fail('a float offset is added to / combined with a time vector (times must be '
                      '(integer sample index) * Ts)', node)
         # complex unit
